@@ -1,4 +1,5 @@
 import TantivyModel.Proofs.CommitProtocol
+import TantivyModel.Proofs.Storage
 /-!
 # C01 — Commit is atomic and durable across a crash at any instant
 
@@ -467,5 +468,19 @@ example : WRun 0 0 PState.created
   simp [WRun, WOk, freshFiles, WEv.ops, coreOps, writeAll, writeFileOps, syncs, PState.created, PState.run,
     PState.step, Dir.step, Dir.empty, upd, FileSt.ready, FileSt.sync, metaCands, AtomSt.cands, AtomSt.sync,
     AtomSt.visible, META, MANAGED]
+
+/-! ## the enumerated crash images are crash images -/
+
+/-- **`quickImages ⊆ CrashImage`**: every image the model's enumerator hands to the harness
+(all applied, all lost, each single un-synced create / unlink / rename flipped, truncations) is
+allowed by the fault model, at every point of every operation log — proved, no longer only
+self-checked at run time. So every image the real `Index::open` is tried on is one the theorems
+speak about. -/
+theorem C01_quick_images_are_crash_images (t : List Op) (ni : NamedImage)
+    (h : ni ∈ quickImages (Dir.empty.run t)) : CrashImage (Dir.empty.run t) ni.img.toImage :=
+  quickImages_sound _ (cover_empty.run t) ni h
+
+example : 3 < (quickImages (Dir.empty.run ([Op.syncDir, .atomicWrite META ⟨0, 0, 0, []⟩, .syncDir] ++ demoTrace.take 30))).length := by
+  decide
 
 end TantivyModel.C01
